@@ -112,7 +112,7 @@ _SAFE_METHODS = {
     bytes: {"decode"},
     _re.Match: {"group", "groups", "start", "end", "span", "groupdict"},
     dict: {"items", "keys", "values", "get", "copy", "update", "setdefault", "pop"},
-    list: {"append", "extend", "index", "count", "copy", "insert", "pop", "sort", "reverse"},
+    list: {"append", "extend", "index", "count", "copy", "insert", "pop", "sort", "reverse", "remove", "clear"},
     tuple: {"index", "count"},
     float: {"is_integer", "hex", "as_integer_ratio"},
     _dt.timedelta: {"total_seconds"},
@@ -896,9 +896,14 @@ class Folder:
                 return obj._container()[self._eval(x.slice, e)]
             if isinstance(obj, HostModel):
                 return obj[self._eval(x.slice, e)]
-            if not isinstance(obj, (dict, list, tuple, str)):
+            if not isinstance(obj, (dict, list, tuple, str, _collections.deque, bytes)):
                 raise AnalysisError(f"constfold: subscript on {type(obj).__name__}")
-            return obj[self._eval(x.slice, e)]
+            try:
+                return obj[self._eval(x.slice, e)]
+            except IndexError as ex:
+                raise FoldRaise(f"IndexError: {ex}", "IndexError")
+            except KeyError as ex:
+                raise FoldRaise(f"KeyError: {ex}", "KeyError")
         if isinstance(x, ast.Attribute):
             return self._attr(x, e)
         if isinstance(x, ast.Call):
